@@ -197,3 +197,15 @@ Fixpoint dup_closes (l : list nat) : nat :=
   | [] => 0
   | x :: r => (if existsb (Nat.eqb x) r then 1 else 0) + dup_closes r
   end.
+
+(* ---- a gnet.Client: Client.Start opens one poller per event loop (no listeners), registering each
+   loop as it goes; a failing OpenPoller ends the start with closeEventLoops (the pollers of the
+   loops registered so far) and the error; the loop goroutines are started only after the last
+   poller is open.  Client.Stop ends with the same closeEventLoops. *)
+Definition run_client (n : nat) (f : option fault) : st * outcome :=
+  let '(s1, regs, ok) := open_subs f [] n [] st0 in
+  if ok then (close_event_loops regs None [] (go (List.length regs) s1), Started)
+  else (close_event_loops regs None [] s1, Failed).
+
+Definition after_client_start (n : nat) (f : option fault) : st * bool :=
+  let '(s1, _, ok) := open_subs f [] n [] st0 in (s1, ok).
